@@ -82,7 +82,7 @@ def c11_case(ctx: Ctx, case: dict):
         code1 = common.py_code(ode1, scheme=SCHEMES)
         mod1 = common.exec_module(code1)
     except Exception as ex:
-        ctx.violate(f"C11/reloaded-codegen-raises/{type(ex).__name__}", f"code generation for the reloaded model raised {type(ex).__name__}", case=case, saved=saved)
+        ctx.violate(f"C11/reloaded-codegen-raises/{oracle.exc_kind(ex, rm)}", f"code generation for the reloaded model raised {type(ex).__name__}: {str(ex)[:80]}", case=case, saved=saved)
         return
     lay0 = b0.layout
     pts = case.get("points") or ns.points_for(ctx, rm, ctx.n(3, 5), dts=(0.01, 0.1))
@@ -471,6 +471,11 @@ def c16_case(ctx: Ctx, case: dict):
         return
     sing = [tuple(s) for s in case.get("sing", [])]
     distinct = sorted(set(sing))
+    try:
+        found = max((sum(1 for sg in a.singularities(ode._lookup) if not sg.is_infinite) for a in ode.intermediates + ode.state_derivatives), default=0)
+    except Exception:
+        found = len(distinct)
+    several = max(found, len(distinct)) >= 2
     ctx.case(text, len(distinct) >= 1, sample={"text": text, "singular_points": distinct})
     ctx.count(f"removable_singularities/{len(distinct)}")
     if m1.state != m2.state or m1.parameter != m2.parameter or m1.monitor != m2.monitor:
@@ -496,7 +501,7 @@ def c16_case(ctx: Ctx, case: dict):
                 continue
             if sexp.agrees(b[i], exact[nme], spread[nme]) == "bad":
                 ratio = b[i] / a[i] if a[i] else float("nan")
-                ctx.violate("C16/regular-point-changed/" + (f"{len(distinct)}-singularities" if len(distinct) < 2 else "several-singularities"),
+                ctx.violate("C16/regular-point-changed/" + ("several-singularities" if several else f"{len(distinct)}-singularities"),
                             f"at a regular point {nme} = {a[i]!r} originally but {b[i]!r} after remove_singularities (ratio {ratio:.6g}; {len(distinct)} removable singular points)",
                             case={**case, "points": [pt]})
                 return
@@ -525,7 +530,7 @@ def c16_case(ctx: Ctx, case: dict):
         got = b[m2.monitor["z"]]
         ctx.count("singular_points")
         if not np.isfinite(got) or abs(mpf(float(got)) - lim) > mpf("1e-7") * (abs(lim) + 1):
-            ctx.violate("C16/singular-point-value/" + ("one-singularity" if len(distinct) < 2 else "several-singularities"),
+            ctx.violate("C16/singular-point-value/" + ("several-singularities" if several else "one-singularity"),
                         f"at the removable singular point {xn} = {x0} the repaired model gives z = {got!r}, the limit is {oracle.fmt(lim)}",
                         case={**case, "points": [pt]})
             return
